@@ -299,12 +299,40 @@ def run(repo: Repo, chk: Check):
         okp = okp or ("print(__json.dumps(<call_node.as_string()>))" in t.replace(" ", ""))
     chk.judge("R12.c", "utils:eval_constexpr:subprocess transport prints json of the same call", okp, "no 'print(__json.dumps(<call>))' appended for the subprocess transport", None, wu)
     loads = [c for c in ast.walk(ev) if isinstance(c, ast.Call) and norm(c.func) == "json.loads"]
-    srcs = sorted(norm(c.args[0]) for c in loads if c.args)
-    okl = len(loads) >= 2 and any("__result" in s for s in srcs) and any(s in ("result_json", "stdout.decode().strip()", "stdout.decode()", "stdout") for s in srcs)
+    def origin_text(e, at, depth=0):
+        """the expression with locals that are bound once replaced by what they were bound to (three levels)"""
+        if depth > 3:
+            return norm(e)
+        if isinstance(e, ast.Name):
+            ids_ = [n_.id for n_ in ecfg.nodes_of(at)]
+            ds_ = erd.at(ids_[0], e.id) if ids_ else []
+            if len(ds_) == 1 and ds_[0].kind == "assign" and not ds_[0].index and ds_[0].value is not None:
+                return origin_text(ds_[0].value, ecfg.nodes[ds_[0].node].ast, depth + 1)
+            if len(ds_) == 1 and ds_[0].kind == "assign" and ds_[0].index and ds_[0].value is not None:
+                return f"<part {ds_[0].index} of {norm(ds_[0].value)}> {e.id}"
+        return norm(e)
+    srcs = sorted(origin_text(c.args[0], c) for c in loads if c.args)
+    okl = len(loads) >= 2 and any("__result" in s for s in srcs) and any("stdout" in s and "stderr" not in s.replace("stdout, stderr", "") or s.startswith("stdout") for s in srcs)
     chk.judge("R12.c", "utils:eval_constexpr:both transports are read with json.loads", okl, f"json.loads applied to {srcs}", {"readers": srcs}, wu)
     # what is returned is what was read (and cached)
     rets = [r for r in ast.walk(ev) if isinstance(r, ast.Return) and r.value is not None]
-    okr = all(norm(r.value) in ("result", "_eval_constexpr_cache[code]") for r in rets) and bool(rets)
+    def ret_kind(e, at, depth=0):
+        """'cache' (looked up under the key), 'decoded' (json.loads of a transport), else None"""
+        if depth > 4:
+            return None
+        t_ = norm(e)
+        if t_.startswith("_eval_constexpr_cache[") or t_.startswith("_eval_constexpr_cache.get("):
+            return "cache"
+        if isinstance(e, ast.Call) and norm(e.func) == "json.loads":
+            return "decoded"
+        if isinstance(e, ast.Name):
+            ids_ = [n_.id for n_ in ecfg.nodes_of(at)]
+            ds_ = erd.at(ids_[0], e.id) if ids_ else []
+            kinds = {ret_kind(d_.value, ecfg.nodes[d_.node].ast, depth + 1) if d_.kind == "assign" and not d_.index and d_.value is not None else None for d_ in ds_}
+            if kinds and None not in kinds:
+                return "/".join(sorted(kinds))
+        return None
+    okr = bool(rets) and all(ret_kind(r.value, r) is not None for r in rets)
     chk.judge("R12.c", "utils:eval_constexpr:returns the decoded result", okr, f"return values {[norm(r.value) for r in rets]}", None, wu)
     # R12.d
     from .c11 import cache_obligation
